@@ -2,8 +2,8 @@ package main
 
 import (
 	"bytes"
-	"flag"
 	"context"
+	"flag"
 	"fmt"
 	"io"
 	"net"
@@ -280,6 +280,18 @@ func runC07(args []string) error {
 		var es []gEntry
 		for i := 0; i < p.n; i++ {
 			k := []byte(fmt.Sprintf("key-%03d", i))
+			if p.n >= 5 && (p.maxInMem == 0 || p.maxInMem >= 9000) {
+				// keys at and around the maximum key length that share their first 1019 bytes
+				base := append([]byte("key-001"), bytes.Repeat([]byte{'p'}, 1012)...)
+				switch i {
+				case 1:
+					k = base
+				case 2:
+					k = append(append([]byte(nil), base...), 'a')
+				case 3:
+					k = append(append([]byte(nil), base...), 'b', 'c', 'c', 'c', 'c')
+				}
+			}
 			v := bytes.Repeat([]byte{byte('a' + i%26)}, p.valLen[i%len(p.valLen)])
 			content = append(content, [2][]byte{k, v})
 			l := uint64(100 + i)
@@ -327,11 +339,18 @@ func runC07(args []string) error {
 			return err
 		}
 		rctx, cancel2 := context.WithTimeout(ctx, 20*time.Second)
-		rr, err := nt.Range(rctx, &regattapb.RangeRequest{Table: []byte(name), Key: []byte{0}, RangeEnd: []byte{0}, Linearizable: true})
+		// all pages of the full range (a single Range response stops at about 4 MiB)
+		seq, err := nt.Iterator(rctx, &regattapb.RangeRequest{Table: []byte(name), Key: []byte{0}, RangeEnd: []byte{0}, Linearizable: true})
 		if err != nil {
 			cancel2()
 			return err
 		}
+		rr := &regattapb.RangeResponse{}
+		seq(func(page *regattapb.ResponseOp_Range) bool {
+			rr.Kvs = append(rr.Kvs, page.Kvs...)
+			rr.Count += page.Count
+			return true
+		})
 		li, err := nt.LeaderIndex(rctx, true)
 		cancel2()
 		if err != nil {
